@@ -11,11 +11,16 @@ inductive Open : CR → Prop
       buf.length + size = total (c :: r) →
       Open ⟨c :: (r ++ rest), buf, r.length + 1, some (off, size, rl)⟩
 
+/-- A body frame is clipped to what is still requested - *because* the truncation is in the
+source (`Gen.httpFragmentClipped`, F8.h repair). -/
 theorem clipFrag_length (size : Nat) (f : Bytes) : (clipFrag size f).length ≤ size := by
   unfold clipFrag
+  have hfact : Gen.httpFragmentClipped = true := by decide
   split
   · simp; omega
-  · omega
+  · rename_i h
+    have : ¬ size < f.length := fun hlt => h ⟨hfact, hlt⟩
+    omega
 
 theorem feed_safe : ∀ (fs : List Bytes) (st : CR), Open st →
     (∃ its rest, CR.feed fs st = .runDone its ⟨rest, [], 0, none⟩ ∧ Item.panic ∉ its ∧
